@@ -25,7 +25,7 @@ for d in sorted(glob.glob(os.path.join(VERIF, "seeded", prefix + "*"))):
             print("%-9s PATCH-FAILED" % meta["name"], flush=True)
             missed += 1
             continue
-        env = dict(os.environ, VERIF_REPO_DIR=scratch)
+        env = dict(os.environ, VERIF_REPO_DIR=scratch, VERIF_EVIDENCE_DIR=os.path.join(scratch, "_evidence"))
         detected, lines, rcs = [], {}, {}
         for prop in [meta["property"]] + [q for q in meta.get("also_check", []) if q != meta["property"]]:
             pr = subprocess.run([sys.executable, os.path.join(VERIF, "check.py"), prop, "quick"], env=env, capture_output=True, text=True)
